@@ -27,6 +27,7 @@ import (
 	"net/http/httptest"
 	"os"
 	"path/filepath"
+	"reflect"
 	"strconv"
 	"strings"
 	"sync"
@@ -376,7 +377,7 @@ func (g *pGen) subset(n, k int) []int {
 }
 
 // mkVAA builds one VAA of the given kind naming set `si`; returns the kind actually built.
-func (g *pGen) mkVAA(w *pWorld, si int, kind int) (*vaa.VAA, string) {
+func (g *pGen) mkVAA(w *pWorld, si int, kind int, curN int) (*vaa.VAA, string) {
 	r := g.r
 	v := g.body(uint32(si))
 	var keys []pKey
@@ -466,6 +467,20 @@ func (g *pGen) mkVAA(w *pWorld, si int, kind int) (*vaa.VAA, string) {
 		g.signWith(v, keys, g.subset(n, q))
 		v.Signatures[r.Intn(len(v.Signatures))].Signature[64] = byte(4 + r.Intn(200))
 		return v, "badrecid"
+	case 13, 14, 15, 16:
+		// exactly quorum(named)-1 / quorum(named) / quorum(current)-1 / quorum(current) VALID signatures of the NAMED set:
+		// the threshold that counts is the one of the set the VAA names, whatever the size of the explorer's current set
+		qc := nodeprocessor.CalculateQuorum(curN)
+		k := []int{q - 1, q, qc - 1, qc}[kind-13]
+		name := []string{"qnamed-1", "qnamed", "qcur-1", "qcur"}[kind-13]
+		if k > n {
+			k = n
+		}
+		if k < 0 {
+			k = 0
+		}
+		g.signWith(v, keys, g.subset(n, k))
+		return v, fmt.Sprintf("%s/%dof%d/cur%d", name, k, n, curN)
 	default: // more signatures than guardians
 		idx := firstN(n)
 		idx = append(idx, n-1)
@@ -509,8 +524,30 @@ func (g *pGen) sequence(steps int) {
 	// the world: C+1 guardian sets on chain
 	C := 1 + r.Intn(4)
 	w := &pWorld{nilAt: -1}
+	ladder := []int{1, 2, 4, 7, 13, 19}
+	shape := r.Intn(4) // 0 growing, 1 shrinking, 2 alternating small/large, 3 random
+	off := r.Intn(len(ladder))
 	for i := 0; i <= C; i++ {
 		n := pSizes[r.Intn(len(pSizes))]
+		switch shape {
+		case 0:
+			n = ladder[(off+i)%len(ladder)]
+			if off+i >= len(ladder) {
+				n = ladder[len(ladder)-1]
+			}
+		case 1:
+			j := len(ladder) - 1 - off - i
+			if j < 0 {
+				j = 0
+			}
+			n = ladder[j]
+		case 2:
+			if (i+off)%2 == 0 {
+				n = ladder[r.Intn(2)]
+			} else {
+				n = ladder[3+r.Intn(3)]
+			}
+		}
 		ks := make([]pKey, n)
 		for j := range ks {
 			ks[j] = g.pool[r.Intn(len(g.pool))]
@@ -585,7 +622,17 @@ func (g *pGen) sequence(steps int) {
 		if r.Intn(3) == 0 {
 			kind = r.Intn(2) // bias towards valid VAAs
 		}
-		v, kname := g.mkVAA(w, si, kind)
+		curN := 0
+		if cur >= 0 && cur < len(w.truth) && cur != w.nilAt {
+			curN = len(w.truth[cur])
+		}
+		if r.Intn(3) == 0 { // thresholds of the named vs the current set, mostly on an older set
+			kind = 13 + r.Intn(4)
+			if cur > 0 && r.Intn(4) != 0 {
+				si = r.Intn(cur)
+			}
+		}
+		v, kname := g.mkVAA(w, si, kind, curN)
 		// a repeat of an earlier VAA (same message id): same object, or a re-signed copy with other signers
 		if len(prev) > 0 && r.Intn(4) == 0 {
 			v = prev[r.Intn(len(prev))]
@@ -676,8 +723,24 @@ func (g *pGen) sequence(steps int) {
 	}
 }
 
+// verifyVAA is reached through reflection so that this file compiles whatever signature the gate has; it is called
+// directly only while it still is func(*vaa.VAA, []common.Address) error — otherwise the gate is judged through Push alone
+// (where the Spec is evaluated on what actually appears on the queue).
+func pVerifyFn() (reflect.Value, bool) {
+	fn := reflect.ValueOf(verifyVAA)
+	t := fn.Type()
+	ok := t.NumIn() == 2 && t.NumOut() == 1 && !t.IsVariadic() &&
+		t.In(0) == reflect.TypeOf((*vaa.VAA)(nil)) && t.In(1) == reflect.TypeOf([]eth_common.Address(nil)) &&
+		t.Out(0) == reflect.TypeOf((*error)(nil)).Elem()
+	return fn, ok
+}
+
 func (g *pGen) verifyDirect() {
 	r := g.r
+	vfn, ok := pVerifyFn()
+	if !ok {
+		return
+	}
 	w := &pWorld{nilAt: -1}
 	for _, n := range pSizes {
 		ks := make([]pKey, n)
@@ -687,8 +750,8 @@ func (g *pGen) verifyDirect() {
 		w.truth = append(w.truth, ks)
 	}
 	for si := range w.truth {
-		for kind := 0; kind < 13; kind++ {
-			v, kname := g.mkVAA(w, si, kind)
+		for kind := 0; kind < 17; kind++ {
+			v, kname := g.mkVAA(w, si, kind, len(w.truth[(si+1)%len(w.truth)]))
 			addrs := w.addrs(si)
 			switch r.Intn(12) {
 			case 0:
@@ -704,7 +767,8 @@ func (g *pGen) verifyDirect() {
 						s = "panic"
 					}
 				}()
-				if err := verifyVAA(v, addrs); err != nil {
+				out := vfn.Call([]reflect.Value{reflect.ValueOf(v), reflect.ValueOf(addrs)})
+				if err, _ := out[0].Interface().(error); err != nil {
 					return pClass(err, false)
 				}
 				return "nil"
